@@ -389,7 +389,11 @@ func main() {
 	genSessions(o, all)
 	genMisc(o, pkgs, all)
 	genLockSections(o, pkgs["."], *repo)
+<<<<<<< HEAD
 	genSharedWrites(o, all)
+=======
+	genFinishers(o, pkgs["."])
+>>>>>>> sC13
 
 	if *factsPath != "" {
 		b, _ := json.MarshalIndent(o.facts, "", " ")
@@ -1112,6 +1116,7 @@ func genLockSections(o *out, files map[string]*ast.File, repo string) {
 	o.facts["lockSections"] = len(secs)
 }
 
+<<<<<<< HEAD
 // ---- C07: assignment sites of shared fields ---------------------------------------------------
 
 // lhsParts: for an assignment target like `a.b.c[k].d` returns base identifier "a", the selector path "b.c[].d",
@@ -1213,4 +1218,526 @@ func genSharedWrites(o *out, all []funcInfo) {
 	o.write("SharedWrites", b.String())
 	o.facts["sharedFieldWrites"] = len(fieldSites)
 	o.facts["hotFuncWrites"] = len(funcSites)
+=======
+// ---- C13. finishers: which callback pipelines a finisher (re-)enters, on which paths, on which handle ---------
+
+type finEntry struct {
+	id                 int
+	kind, callee, root string
+	rootIsLitParam     bool
+	inLit, inLoop      bool
+	returned           bool
+	skipHooks          bool
+	destSrc            string
+	src                string
+}
+
+type finPath struct {
+	ids  []int
+	term bool
+}
+
+type finAn struct {
+	finishers map[string]bool // method names of *DB declared in finisher_api.go
+	entries   []*finEntry
+	defs      map[string]ast.Expr // single `x := expr` definitions
+	defCount  map[string]int
+	dests     map[string]string // x.Statement.Dest = <src> (last seen, by root name)
+	litParams [][]string        // stack of enclosing func-literal parameter names
+	loopDepth int
+	inReturn  bool
+	byPos     map[token.Pos]int
+}
+
+// chainInfo walks a receiver chain down to its root identifier, resolving := definitions, and reports whether a
+// Session literal with SkipHooks: true occurs on the way
+func (a *finAn) chainInfo(e ast.Expr, depth int) (root string, skip bool) {
+	for depth < 8 {
+		switch x := e.(type) {
+		case *ast.CallExpr:
+			if sel, ok := x.Fun.(*ast.SelectorExpr); ok {
+				if sel.Sel.Name == "Session" && len(x.Args) == 1 {
+					fs, found := literalFields(x.Args[0], "Session")
+					if !found {
+						fs, _ = literalFields(x.Args[0], "gorm.Session")
+					}
+					for _, f := range fs {
+						if f[0] == "SkipHooks" && f[1] == "true" {
+							skip = true
+						}
+					}
+				}
+				e = sel.X
+				continue
+			}
+			return src(x), skip
+		case *ast.SelectorExpr:
+			e = x.X
+			continue
+		case *ast.ParenExpr:
+			e = x.X
+			continue
+		case *ast.Ident:
+			if d, ok := a.defs[x.Name]; ok && a.defCount[x.Name] == 1 {
+				r, s := a.chainInfo(d, depth+1)
+				return r, skip || s
+			}
+			return x.Name, skip
+		default:
+			return src(e), skip
+		}
+	}
+	return "?", skip
+}
+
+func (a *finAn) isLitParam(name string) bool {
+	if len(a.litParams) == 0 {
+		return false
+	}
+	for _, p := range a.litParams[len(a.litParams)-1] {
+		if p == name {
+			return true
+		}
+	}
+	return false
+}
+
+// entriesIn returns the paths through expression/statement node n (closures are inlined where they are defined)
+func (a *finAn) entriesIn(n ast.Node) []finPath {
+	paths := []finPath{{}}
+	if n == nil {
+		return paths
+	}
+	var found []int
+	ast.Inspect(n, func(m ast.Node) bool {
+		switch x := m.(type) {
+		case *ast.FuncLit:
+			var ps []string
+			if x.Type.Params != nil {
+				for _, f := range x.Type.Params.List {
+					for _, nm := range f.Names {
+						ps = append(ps, nm.Name)
+					}
+				}
+			}
+			a.litParams = append(a.litParams, ps)
+			inner := a.seq(x.Body.List, []finPath{{}})
+			a.litParams = a.litParams[:len(a.litParams)-1]
+			// cross product with what was collected so far
+			var out []finPath
+			for _, p := range paths {
+				for _, q := range inner {
+					out = append(out, finPath{ids: append(append(append([]int(nil), p.ids...), found...), q.ids...)})
+				}
+			}
+			paths, found = finDedupe(out), nil
+			return false
+		case *ast.CallExpr:
+			sel, ok := x.Fun.(*ast.SelectorExpr)
+			if !ok {
+				return true
+			}
+			if id, ok := a.byPos[x.Pos()]; ok && a.entries[id].src == src(x) {
+				found = append(found, id) // the same call reached again (switch clause reached by fallthrough)
+				return true
+			}
+			if rs, ok := sel.X.(*ast.SelectorExpr); ok && rs.Sel.Name == "callbacks" {
+				return true // x.callbacks.Create() is the processor accessor, not the finisher
+			}
+			e := &finEntry{inLit: len(a.litParams) > 0, inLoop: a.loopDepth > 0, returned: a.inReturn && len(a.litParams) == 0, src: src(x)}
+			if sel.Sel.Name == "Execute" && len(x.Args) == 1 {
+				if inner, ok := sel.X.(*ast.CallExpr); ok {
+					if isel, ok := inner.Fun.(*ast.SelectorExpr); ok {
+						if csel, ok := isel.X.(*ast.SelectorExpr); ok && csel.Sel.Name == "callbacks" {
+							e.kind = strings.ToLower(isel.Sel.Name)
+							e.root, e.skipHooks = a.chainInfo(x.Args[0], 0)
+							if id, ok := x.Args[0].(*ast.Ident); ok {
+								e.destSrc = a.dests[id.Name]
+							}
+						}
+					}
+				}
+			} else if a.finishers[sel.Sel.Name] {
+				r, s := a.chainInfo(sel.X, 0)
+				// only handles: the root must be a plain identifier (db, tx, a local derived from them)
+				if r != "" && !strings.ContainsAny(r, ".( ") {
+					e.callee, e.root, e.skipHooks = sel.Sel.Name, r, s
+				}
+			}
+			if e.kind == "" && e.callee == "" {
+				return true
+			}
+			e.rootIsLitParam = a.isLitParam(e.root)
+			e.id = len(a.entries)
+			a.byPos[x.Pos()] = e.id
+			a.entries = append(a.entries, e)
+			found = append(found, e.id)
+			// nested entries inside the arguments/receiver are still visited
+		}
+		return true
+	})
+	for i := range paths {
+		paths[i].ids = append(paths[i].ids, found...)
+	}
+	return paths
+}
+
+func finDedupe(ps []finPath) []finPath {
+	seen := map[string]bool{}
+	var out []finPath
+	for _, p := range ps {
+		k := fmt.Sprint(p.ids, p.term)
+		if !seen[k] {
+			seen[k] = true
+			out = append(out, p)
+		}
+	}
+	if len(out) > 512 {
+		out = out[:512]
+	}
+	return out
+}
+
+func finExtend(live []finPath, more []finPath) []finPath {
+	var out []finPath
+	for _, p := range live {
+		if p.term {
+			out = append(out, p)
+			continue
+		}
+		for _, q := range more {
+			out = append(out, finPath{ids: append(append([]int(nil), p.ids...), q.ids...), term: q.term})
+		}
+	}
+	return finDedupe(out)
+}
+
+func (a *finAn) seq(stmts []ast.Stmt, in []finPath) []finPath {
+	cur := in
+	for _, s := range stmts {
+		cur = finExtend(cur, a.stmt(s))
+	}
+	return cur
+}
+
+// stmt returns the paths through one statement, starting from a single empty path
+func (a *finAn) stmt(s ast.Stmt) []finPath {
+	one := []finPath{{}}
+	switch x := s.(type) {
+	case nil:
+		return one
+	case *ast.BlockStmt:
+		return a.seq(x.List, one)
+	case *ast.IfStmt:
+		head := finExtend(a.stmt(x.Init), a.entriesIn(x.Cond))
+		th := a.seq(x.Body.List, one)
+		el := one
+		if x.Else != nil {
+			el = a.stmt(x.Else)
+		}
+		return finExtend(head, finDedupe(append(append([]finPath(nil), th...), el...)))
+	case *ast.SwitchStmt, *ast.TypeSwitchStmt:
+		var head []finPath
+		var clauses []ast.Stmt
+		if sw, ok := x.(*ast.SwitchStmt); ok {
+			head = finExtend(a.stmt(sw.Init), a.entriesIn(sw.Tag))
+			clauses = sw.Body.List
+		} else {
+			ts := x.(*ast.TypeSwitchStmt)
+			head = finExtend(a.stmt(ts.Init), a.stmt(ts.Assign))
+			clauses = ts.Body.List
+		}
+		var alts []finPath
+		hasDefault := false
+		for i := range clauses {
+			// effective body: this clause plus the following ones while they end in fallthrough
+			var body []ast.Stmt
+			for j := i; j < len(clauses); j++ {
+				cc := clauses[j].(*ast.CaseClause)
+				if j == i && cc.List == nil {
+					hasDefault = true
+				}
+				b := cc.Body
+				ft := false
+				if len(b) > 0 {
+					if br, ok := b[len(b)-1].(*ast.BranchStmt); ok && br.Tok == token.FALLTHROUGH {
+						ft = true
+						b = b[:len(b)-1]
+					}
+				}
+				body = append(body, b...)
+				if !ft {
+					break
+				}
+			}
+			alts = append(alts, a.seq(body, one)...)
+		}
+		if !hasDefault {
+			alts = append(alts, finPath{})
+		}
+		return finExtend(head, finDedupe(alts))
+	case *ast.ForStmt:
+		head := finExtend(a.stmt(x.Init), a.entriesIn(x.Cond))
+		a.loopDepth++
+		body := finExtend(a.seq(x.Body.List, one), a.stmt(x.Post))
+		a.loopDepth--
+		return finExtend(head, finDedupe(append([]finPath{{}}, body...)))
+	case *ast.RangeStmt:
+		head := a.entriesIn(x.X)
+		a.loopDepth++
+		body := a.seq(x.Body.List, one)
+		a.loopDepth--
+		return finExtend(head, finDedupe(append([]finPath{{}}, body...)))
+	case *ast.ReturnStmt:
+		ps := one
+		a.inReturn = true
+		for _, e := range x.Results {
+			ps = finExtend(ps, a.entriesIn(e))
+		}
+		a.inReturn = false
+		for i := range ps {
+			ps[i].term = true
+		}
+		return ps
+	case *ast.LabeledStmt:
+		return a.stmt(x.Stmt)
+	case *ast.AssignStmt:
+		if x.Tok == token.DEFINE && len(x.Lhs) == 1 && len(x.Rhs) == 1 {
+			if id, ok := x.Lhs[0].(*ast.Ident); ok {
+				a.defs[id.Name] = x.Rhs[0]
+				a.defCount[id.Name]++
+			}
+		} else {
+			for _, l := range x.Lhs {
+				if id, ok := l.(*ast.Ident); ok {
+					a.defCount[id.Name] += 2 // re-assigned: not a single definition
+				}
+			}
+		}
+		if len(x.Lhs) == 1 && len(x.Rhs) == 1 {
+			if l := src(x.Lhs[0]); strings.HasSuffix(l, ".Statement.Dest") {
+				a.dests[strings.TrimSuffix(l, ".Statement.Dest")] = src(x.Rhs[0])
+			}
+		}
+		return a.entriesIn(x)
+	default:
+		return a.entriesIn(s)
+	}
+}
+
+// identifiers of the enclosing function that denote *DB handles (receiver, parameters and named results of type *DB)
+func finOuterDBNames(fd *ast.FuncDecl) []string {
+	var out []string
+	add := func(fl *ast.FieldList) {
+		if fl == nil {
+			return
+		}
+		for _, f := range fl.List {
+			t := src(f.Type)
+			if t == "*DB" || t == "*gorm.DB" {
+				for _, n := range f.Names {
+					out = append(out, n.Name)
+				}
+			}
+		}
+	}
+	add(fd.Recv)
+	add(fd.Type.Params)
+	add(fd.Type.Results)
+	return out
+}
+
+func genFinishers(o *out, root map[string]*ast.File) {
+	file := root["finisher_api.go"]
+	var b strings.Builder
+	b.WriteString(`/-- one place where a finisher enters a callback pipeline: directly (` + "`x.callbacks.K().Execute(h)`" + `, kind = K) or by
+    calling another finisher on a handle (callee); root = identifier the handle is derived from (through single
+    := definitions), skipHooks = a Session literal with SkipHooks: true lies on that derivation -/
+structure PipeEntry where
+  id : Nat
+  kind : String
+  callee : String
+  root : String
+  rootIsClosureParam : Bool
+  inClosure : Bool
+  inLoop : Bool
+  returned : Bool
+  skipHooks : Bool
+  destSrc : String
+  src : String
+deriving Repr, DecidableEq
+
+/-- per finisher: its entries and every control-flow path (ids of the entries met, in order; closures inlined where
+    defined, loops unrolled 0/1 times with inLoop marking repeatable entries) -/
+structure FinisherFact where
+  fn : String
+  entries : List PipeEntry
+  paths : List (List Nat)
+deriving Repr
+
+/-- a func literal with a *DB parameter inside a finisher: which functions it (or the variable holding it) is passed
+    to / called by, and every use inside it of an OUTER *DB identifier (receiver, *DB params, named *DB results)
+    that is not shadowed by the literal's own parameters -/
+structure TxClosureFact where
+  fn : String
+  params : List String
+  passedTo : List String
+  outerDBUses : List String
+  entryIds : List Nat
+  loopHeader : String
+  src : String
+deriving Repr
+
+`)
+	if file == nil {
+		b.WriteString("def finishers : List FinisherFact := []\ndef txClosures : List TxClosureFact := []\n")
+		o.write("Finishers", b.String())
+		return
+	}
+	fins := map[string]bool{}
+	for _, d := range file.Decls {
+		if fd, ok := d.(*ast.FuncDecl); ok && fd.Recv != nil && fd.Body != nil && ast.IsExported(fd.Name.Name) {
+			fins[fd.Name.Name] = true
+		}
+	}
+	for _, n := range []string{"Transaction", "Connection", "Begin", "Commit", "Rollback", "SavePoint", "RollbackTo"} {
+		delete(fins, n)
+	}
+	var facts, closures []string
+	for _, d := range file.Decls {
+		fd, ok := d.(*ast.FuncDecl)
+		if !ok || fd.Recv == nil || fd.Body == nil || !ast.IsExported(fd.Name.Name) {
+			continue
+		}
+		a := &finAn{finishers: fins, defs: map[string]ast.Expr{}, defCount: map[string]int{}, dests: map[string]string{}, byPos: map[token.Pos]int{}}
+		// pre-pass: collect := definitions so that uses before the textual analysis order resolve too
+		paths := a.seq(fd.Body.List, []finPath{{}})
+		if len(a.entries) == 0 {
+			continue
+		}
+		var es []string
+		for _, e := range a.entries {
+			es = append(es, fmt.Sprintf("    { id := %d, kind := %s, callee := %s, root := %s, rootIsClosureParam := %s, inClosure := %s, inLoop := %s, returned := %s, skipHooks := %s, destSrc := %s, src := %s }",
+				e.id, lstr(e.kind), lstr(e.callee), lstr(e.root), lbool(e.rootIsLitParam), lbool(e.inLit), lbool(e.inLoop), lbool(e.returned), lbool(e.skipHooks), lstr(e.destSrc), lstr(e.src)))
+		}
+		var ps []string
+		seen := map[string]bool{}
+		for _, p := range paths {
+			k := fmt.Sprint(p.ids)
+			if seen[k] {
+				continue
+			}
+			seen[k] = true
+			var ids []string
+			for _, i := range p.ids {
+				ids = append(ids, fmt.Sprint(i))
+			}
+			ps = append(ps, "["+strings.Join(ids, ", ")+"]")
+		}
+		sort.Strings(ps)
+		facts = append(facts, fmt.Sprintf("  { fn := %s,\n    entries := [\n%s],\n    paths := [%s] }", lstr("DB."+fd.Name.Name), strings.Join(es, ",\n"), strings.Join(ps, ", ")))
+
+		// closures with a *DB parameter
+		outer := finOuterDBNames(fd)
+		ast.Inspect(fd.Body, func(n ast.Node) bool {
+			lit, ok := n.(*ast.FuncLit)
+			if !ok {
+				return true
+			}
+			var params []string
+			hasDB := false
+			if lit.Type.Params != nil {
+				for _, f := range lit.Type.Params.List {
+					if t := src(f.Type); t == "*DB" || t == "*gorm.DB" {
+						hasDB = true
+					}
+					for _, nm := range f.Names {
+						params = append(params, nm.Name)
+					}
+				}
+			}
+			if !hasDB {
+				return true
+			}
+			shadow := map[string]bool{}
+			for _, p := range params {
+				shadow[p] = true
+			}
+			var uses []string
+			loopHeader := ""
+			ast.Inspect(lit.Body, func(m ast.Node) bool {
+				switch y := m.(type) {
+				case *ast.Ident:
+					for _, o := range outer {
+						if y.Name == o && !shadow[o] {
+							uses = append(uses, o)
+						}
+					}
+				case *ast.SelectorExpr:
+					// only the base of a selector is an identifier use
+					ast.Inspect(y.X, func(k ast.Node) bool {
+						if id, ok := k.(*ast.Ident); ok {
+							for _, o := range outer {
+								if id.Name == o && !shadow[o] {
+									uses = append(uses, o)
+								}
+							}
+						}
+						return true
+					})
+					return false
+				case *ast.ForStmt:
+					if loopHeader == "" {
+						loopHeader = src(y.Init) + "; " + src(y.Cond) + "; " + src(y.Post)
+					}
+				}
+				return true
+			})
+			// where does the literal go: assigned to a variable?
+			varName := ""
+			ast.Inspect(fd.Body, func(m ast.Node) bool {
+				if as, ok := m.(*ast.AssignStmt); ok && len(as.Lhs) == 1 && len(as.Rhs) == 1 && as.Rhs[0] == ast.Expr(lit) {
+					if id, ok := as.Lhs[0].(*ast.Ident); ok {
+						varName = id.Name
+					}
+				}
+				return true
+			})
+			var passed []string
+			ast.Inspect(fd.Body, func(m ast.Node) bool {
+				c, ok := m.(*ast.CallExpr)
+				if !ok {
+					return true
+				}
+				if id, ok := c.Fun.(*ast.Ident); ok && varName != "" && id.Name == varName {
+					passed = append(passed, "call")
+				}
+				fname := src(c.Fun)
+				if fs, ok := c.Fun.(*ast.SelectorExpr); ok {
+					fname = fs.Sel.Name
+				}
+				for _, arg := range c.Args {
+					if arg == ast.Expr(lit) {
+						passed = append(passed, fname)
+					} else if id, ok := arg.(*ast.Ident); ok && varName != "" && id.Name == varName {
+						passed = append(passed, fname)
+					}
+				}
+				return true
+			})
+			var ids []string
+			for _, e := range a.entries {
+				if e.inLit && strings.Contains(src(lit), e.src) {
+					ids = append(ids, fmt.Sprint(e.id))
+				}
+			}
+			closures = append(closures, fmt.Sprintf("  { fn := %s, params := %s, passedTo := %s, outerDBUses := %s, entryIds := [%s], loopHeader := %s, src := %s }",
+				lstr("DB."+fd.Name.Name), lstrs(params), lstrs(passed), lstrs(uses), strings.Join(ids, ", "), lstr(loopHeader), lstr(src(lit.Body))))
+			return true
+		})
+	}
+	b.WriteString("def finishers : List FinisherFact := [\n" + strings.Join(facts, ",\n") + "\n]\n\n")
+	b.WriteString("def txClosures : List TxClosureFact := [\n" + strings.Join(closures, ",\n") + "\n]\n")
+	o.write("Finishers", b.String())
+>>>>>>> sC13
 }
